@@ -22,6 +22,12 @@ func main() {
 		os.Exit(2)
 	}
 	switch os.Args[1] {
+	case "hammer":
+		ms := 500
+		if len(os.Args) > 2 {
+			fmt.Sscanf(os.Args[2], "%d", &ms)
+		}
+		hammerEngine(ms)
 	case "keys":
 		n := 40
 		if len(os.Args) > 2 {
